@@ -50,7 +50,7 @@ func (propC18) Decode(raw []byte) (interface{}, error) {
 	return &sc, err
 }
 
-var c18ListFilters = []string{"sort", "reverse", "slice(0, 2)", "slice(1, 2)", "slice(1)", "merge([9, 8])", "merge(il)", "merge(l1)", "default([])", "first", "last", "join(',')", "length", "json_encode", "slice(0, 3)|sort", "sort|reverse", "slice(1, 3)|reverse", "merge([1])|sort", "reverse|slice(0, 2)|sort", "sort|slice(0, 2)|merge([0])"}
+var c18ListFilters = []string{"sort", "reverse", "slice(0, 2)", "slice(1, 2)", "slice(1)", "merge([9, 8])", "merge(il)", "merge(l1)", "default([])", "first", "last", "join(',')", "join(', ', ' and ')", "length", "json_encode", "slice(0, 3)|sort", "sort|reverse", "slice(1, 3)|reverse", "merge([1])|sort", "reverse|slice(0, 2)|sort", "sort|slice(0, 2)|merge([0])"}
 var c18MapFilters = []string{"default({})|merge({'zz': 1})", "default({'q': 1})|merge({'k1': 'Y'})|keys", "merge({'k1': 'X', 'zz': 1})", "keys", "keys|sort", "keys|reverse", "first", "json_encode", "default({})", "length", "merge(m1)", "merge({'k1': 'X'})|keys|sort", "join(',')", "keys|slice(0, 1)"}
 
 // seqFilters are the list filters that keep a list a list (safe to chain)
@@ -90,7 +90,7 @@ func c18Template(r *R) string {
 	n := r.Range(2, 7)
 	dump := func(e string) string { return "\x01{{ " + e + "|json_encode }}\x02" }
 	for i := 0; i < n; i++ {
-		switch r.N(29) {
+		switch r.N(31) {
 		case 0, 1:
 			l, f := listAndFilter(r)
 			sb.WriteString("{{ " + l + "|" + f + "|json_encode }};")
@@ -194,6 +194,11 @@ func c18Template(r *R) string {
 			} else {
 				sb.WriteString(pick(r, []string{"{{ ss|sort|join(',') }}{{ ss|first }}{{ ss|reverse|first }}", "{{ ss|sort|first }}{{ ss|join(',') }}"}) + ";")
 			}
+		case 29:
+			// database rows: optional times as pointers (zero = unset), nullable columns; joining with a last separator
+			sb.WriteString(pick(r, []string{"{{ deleted|date('Y') }}{{ row.DeletedAt|date('Y') }}", "{{ created|date('Y') }}{{ row.UpdatedAt|date('Y') }}{{ row.CreatedAt|date('Y-m-d') }}",
+				"{{ row.Email.String }}{{ row.Email.Valid ? 'v' : 'n' }}{{ row.Seats.Int64 }}{{ row.Email|json_encode }}", "{{ deleted is null ? 'n' : 's' }}{{ row.DeletedAt is null ? 'n' : 's' }}{{ row.DeletedAt|date('Y') }}",
+				"{{ sl|join(', ', ' and ') }}{{ p1.Tags|join('-', '+') }}{{ l1|join(', ', ' or ') }}"}) + ";")
 		default:
 			sb.WriteString("{% do " + "n1 + 1 %}{{ pp.Inner.Name }}{{ pp.Greeting }}{{ l2|first|json_encode }};")
 		}
@@ -233,6 +238,9 @@ func (propC18) Gen(seed uint64, ex map[string]bool) interface{} {
 		KV{"repl", &Val{T: "map", M: []KV{{"", s("empty-key")}, {"a", i(1)}, {"b", s("c")}, {"hello", &Val{T: "bool", B: true}}}}},
 		KV{"ss", &Val{T: "sortable", L: []*Val{s("c"), s("a"), s("b")}}},
 		KV{"bigi", &Val{T: "bigint", I: -250}},
+		KV{"deleted", &Val{T: "timeptr"}},
+		KV{"created", &Val{T: "timeptr", I: 1_700_000_000}},
+		KV{"row", &Val{T: "row", S: "e@x", I: 3}},
 		KV{"bigr", &Val{T: "bigrat", I: -3}},
 		KV{"buf", &Val{T: "buffer", S: "buffered <text>"}},
 		KV{"lz", &Val{T: "lazy", S: "top"}},
